@@ -90,6 +90,19 @@ class Histories(Suite):
                 # the dataset's own list of rankings)
                 univ = sorted({e for r in D for b in r for e in b}, key=str)
                 D = [gen.random_ranking(rng, univ, 1.0, rng.choice([1.0, 0.6])) for _ in range(rng.randint(2, 4))]
+            if rng.random() < 0.3:
+                # incomplete, and the elements missing from the first ranking first appear later in DESCENDING order: the ids (order of
+                # first appearance) then differ from the order in which a set of small integers is iterated - a copy of the
+                # dataset that re-derives its ids from unified rankings would not get the same ones
+                n = rng.randint(5, 6)
+                names = list(range(1, n + 1))
+                rng.shuffle(names)
+                head, rest = names[:2], sorted(names[2:], reverse=True)
+                D = [[[e] for e in head], [[e] for e in rest] + [[head[1]]], gen.random_ranking(rng, names, 0.7, 0.6)]
+                if rng.random() < 0.5:
+                    D.append(gen.random_ranking(rng, names, 0.6, 0.6))
+                ops[rng.randrange(len(ops))] = rng.choice(["bioconsert", "bioco", "bio_starters"])
+                ops.append(rng.choice(["matrices", "bioconsert", "parcons_aux"]))
             s1 = rng.choice([gen.UNIFYING, gen.UNIFYING, gen.UNIFYING_HALF])
             # second phase: a scheme with the same first three penalties in both vectors (equivalent on complete rankings only)
             s2 = rng.choice([[s1[0][:3] + [0.0, 1.0, 0.0], s1[1][:3] + [s1[1][0], s1[1][0], 0.0]],      # pseudo-distance
